@@ -169,6 +169,8 @@ class DIMSEMessage(object):
     def data_set(self, value):
         if value:
             self.command_set.CommandDataSetType = 0x0001
+        else:
+            self.command_set.CommandDataSetType = NO_DATASET
         self._data_set = value
 
     def encode(self, pc_id, max_pdu_length):
